@@ -96,8 +96,10 @@ class PITDilationMasker(nn.Module):
         c_gamma = torch.tensor(c_gamma, dtype=torch.float32)
         # transpose & flip
         c_gamma = torch.transpose(c_gamma, 0, 1)
-        # everything on the time-axis is flipped with respect to the paper
-        # c_gamma = torch.fliplr(c_gamma)
+        # everything on the time-axis is flipped with respect to the paper: after the transpose the
+        # time axis is the first one, and the comb must be anchored at the last tap, i.e. the one kept
+        # alive by the timestep mask (and used to normalize gamma in PITConv1d)
+        c_gamma = torch.flipud(c_gamma)
         return c_gamma
 
     @property
